@@ -117,9 +117,51 @@ def extra_checks(tier, seed):
            if hsm.mask_handled(c, m) != hsm.mask_handled(c, i)]
     detail = dict(cases=len(cases), base_cases=len(bases), disagreements=len(bad),
                   slots_crashed=sorted({flat.SLOTS[it[0]] for c, o in zip(cases, mo) for st in o[2] for it in st[0][-1:]})[:15])
+    out = []
     if bad:
         c, m, i = bad[0]
-        return [('hierarchical_crash_points', False, detail,
-                 dict(kind='counterexample', stream='hierarchical', case=c, model_obs=m, impl_obs=i,
-                      note='hierarchical crash-point stream (Hsm.v vs the real hierarchical classes)'))]
-    return [('hierarchical_crash_points', True, detail, {})]
+        out.append(('hierarchical_crash_points', False, detail,
+                    dict(kind='counterexample', stream='hierarchical', case=c, model_obs=m, impl_obs=i,
+                         note='hierarchical crash-point stream (Hsm.v vs the real hierarchical classes)')))
+    else:
+        out.append(('hierarchical_crash_points', True, detail, {}))
+    out.append(survivor_stream(tier, seed))
+    return out
+
+
+ALL_CLASSES = flat.SYNC_CLASSES + flat.ASYNC_CLASSES
+
+
+def survivor_stream(tier, seed):
+    """'afterwards the machine is fully usable in every variant': on all 12 classes and every queue mode, after one
+    callback raised (Exception/BaseException, with/without handlers) the survivor must react to the rest of the
+    history exactly like a fresh machine of the same class placed in the survivor's state (implementation vs
+    implementation; nothing left in the queue)."""
+    n = 360 if tier == 'quick' else 12000
+    cases = []
+    for i in range(n):
+        rng = random.Random('C04s-%d-%d' % (seed, i))
+        c = flat.gen_case(rng, malformed=False, hist_len=rng.randint(3, 7), p_unknown=0.0)
+        c['env'] = dict(default=c['env']['default'], bypos={}, bycb={k: (r[0], None, []) for k, r in c['env']['bycb'].items()})
+        c['history'] = [(0, e, a) for (k, e, a) in c['history']]
+        cls = ALL_CLASSES[i % len(ALL_CLASSES)]
+        c['cls'] = cls
+        c['queued'] = rng.choice([False, True, 'model'] if 'Async' in cls else [False, True])
+        ncb = max([1] + [cb for _, ts in c['machine']['events'] for t in ts for cb in t['prepare'] + t['before'] + t['after'] + [x for x, _ in t['conds']]])
+        c['crash_cb'] = rng.randint(1, max(1, ncb + 6))
+        c['crash_exn'] = (3 + i % 2, 5)
+        c['split'] = rng.randint(1, len(c['history']) - 1)
+        cases.append(c)
+    obs = F.run_impl('flat', 'impl_survivor', cases)
+    crashed = 0
+    for c, o in zip(cases, obs):
+        if 'harness_error' in o:
+            return ('survivor_vs_fresh', False, dict(cases=len(cases)),
+                    dict(kind='harness', correspondence='survivor_vs_fresh', case=c, error=o))
+        if any(st[1][0] == 1 or any(it[0] == 12 for it in st[0]) for st in o['pre']):
+            crashed += 1
+        if o['survivor'] != o['fresh'] or any(x != 0 for x in o['leftovers']):
+            return ('survivor_vs_fresh', False, dict(cases=len(cases), crashed=crashed),
+                    dict(kind='oracle', stream='survivor vs fresh machine', case=c, impl_obs=o,
+                         failing_clause='after a failing callback the %s (queued=%r) does not behave like a fresh machine placed in that state, or its queue is not empty' % (c['cls'], c['queued'])))
+    return ('survivor_vs_fresh', True, dict(cases=len(cases), cases_in_which_a_callback_raised=crashed, classes=len(ALL_CLASSES)), {})
